@@ -7,6 +7,9 @@ TEXTS = ["a", "b", "c", "d", "", "a b", "a  b", "a\tb", " a", "\ta", "a ", "a\t 
          "@@ -1 +1 @@", "*** 1 ****", "\\ x", "a\rb", "< a", "> a", "---", "***************", "1c1", "ab", "ba",
          "a\x00b", "\x00", "\xe9\x80z", "\x1b[0m"]
 SMALL = ["a", "b", "c"]
+# comment-style content (SQL, Lua, Haskell ...): a removed line "-- x" reads "--- x" in a unified hunk, an added "++ x" reads "+++ x",
+# a changed "* x" / "** x" reads "! ** x" in a context hunk; the words are names that exist in the scenario trees
+DASHY = ["-- f", "-- t", "-- g.txt helpers", "++ f", "-- a/t\t2024", "** 1,2 ****", "-- 1 ----", "a", "b", "--", "++"]
 
 
 def rand_text(rng, small=False):
@@ -18,9 +21,10 @@ def rand_text(rng, small=False):
 def rand_file(rng, maxlen=12, small=False, crlf=0.1, nonl=0.15):
     n = rng.choice([0, 1, 2, 3]) if rng.random() < 0.25 else rng.randint(0, maxlen)
     mode = rng.random()
+    dashy = rng.random() < 0.06
     ls = []
     for i in range(n):
-        t = rand_text(rng, small)
+        t = rng.choice(DASHY) if dashy else rand_text(rng, small)
         if mode < crlf:
             nl = "C"
         elif mode < 2 * crlf:
